@@ -40,9 +40,10 @@ def main():
         d1 = sh("timeout 300 /venv/bin/python %s" % demo, env=env, cwd=wt)
         meta["ran"].append({"cmd": "demo with the change", "exit": d1.returncode, "out": d1.stdout[-600:]})
         junit = "/tmp/seedverify_%s.xml" % sid
-        t = sh("timeout 1500 /venv/bin/python -m pytest -q -p no:cacheprovider --timeout=900 --continue-on-collection-errors "
-               "--junitxml=%s" % junit, env=env, cwd=wt)
         base = json.load(open("/root/.vp/BASELINE.json"))
+        files = sorted({"tests/" + x.split(".")[1] + ".py" for x in base["stable_pass"]})
+        t = sh("timeout 1500 /venv/bin/python -m pytest -q -p no:cacheprovider --timeout=300 --continue-on-collection-errors "
+               "--junitxml=%s %s" % (junit, " ".join(files)), env=env, cwd=wt)
         passed = set()
         try:
             for tc in ET.parse(junit).getroot().iter("testcase"):
